@@ -271,10 +271,17 @@ def build_shape(g, d, clockwise=None):
                  "sweep": total, "z0": p[2], "dz": dz, "target": T, "start": p,
                  "turns": d["turns"]})
     if s == "thread":
+        # the turn count is int(|rise| / pitch) of the rise the library sees
+        # (target - start, after float rounding): a rise within 1e-9 of a whole
+        # number of pitches is a tie that rounding decides - moved off the tie
+        rise = (p[2] + d["dz"]) - p[2]
+        q = abs(rise) / d["pitch"]
+        if abs(q - round(q)) < 1e-9 and round(q) >= 1:
+            d = dict(d, dz=d["dz"] * 1.001953125)
         T = (p[0] + d["dx"], p[1] + d["dy"], p[2] + d["dz"])
         c = ((p[0] + T[0]) / 2, (p[1] + T[1]) / 2)
         r = math.hypot(d["dx"], d["dy"]) / 2
-        turns = max(1, int(abs(d["dz"]) / d["pitch"]))
+        turns = max(1, int(abs(T[2] - p[2]) / d["pitch"]))
         a0 = math.atan2(p[1] - c[1], p[0] - c[0])
         total = sgn * (math.pi + 2 * math.pi * (turns - 1))
         return ("thread", [_to_mode(g, p, T, 3), d["pitch"]], {},
